@@ -68,6 +68,11 @@ namespace awkward {
     if (stops == stops_) {
       return shallow_copy();
     }
+    if (stops.empty()) {
+      throw std::invalid_argument(
+        std::string("cannot repartition into zero partitions")
+        + FILENAME(__LINE__));
+    }
     if (stops.back() != stops_.back()) {
       throw std::invalid_argument(
         std::string("cannot repartition array of length ")
